@@ -1137,6 +1137,7 @@ func runC08(c *hc.Ctx) error {
 	if c.Search {
 		n *= 10
 	}
+	sharedIDs := make([]int, 16)
 	for i := 0; i < n; i++ {
 		g, poly, kind := rawCase(c, grids, 8)
 		if i%3 == 1 { // shapes whose shell collapses at a deep level but not at a coarser one (rejection sampled on that fate)
@@ -1211,6 +1212,22 @@ func runC08(c *hc.Ctx) error {
 			}
 			if unexpectedPanic(c, gm, poly, ids, cfg, r) {
 				continue
+			}
+			if i%3 == 0 {
+				// a caller that enumerates its requests in ONE buffer (refilled for every request, as a subset enumeration does)
+				buf := sharedIDs[:len(ids)]
+				copy(buf, ids)
+				fp, _ := gm.toFloatPoly(poly)
+				r2 := runSnapShared(gm, fp, buf, cfg, watchdog)
+				c.Sum.Evaluations++
+				c.Count("request made from a buffer that held the previous request")
+				if r2.Panic != r.Panic || !reflect.DeepEqual(r2.Raw, r.Raw) {
+					obs := any(r2.Raw)
+					if r2.Panic != "" {
+						obs = r2.Panic + ": " + r2.PanicMsg
+					}
+					c.Violate(hc.Violation{What: fmt.Sprintf("the request %v made from an id buffer that held the previous request returned other keys or geometry than the same request made from a fresh slice", ids), Input: caseJSON(gm, poly, ids, cfg, r), Observed: obs})
+				}
 			}
 			for id := range r.Raw {
 				if !containsInt(ids, id) {
